@@ -109,6 +109,7 @@ def run_history(sh, case, driver='history'):
     # the user's arrays: the SAME objects are passed to every fit of the history (and may be edited in place)
     sigs = [np.array(s, dtype=float, copy=True) for s in case['sigs']]
     fs, f_range = case['fs'], tuple(case['f_range'])
+    case.setdefault('f_range2', case['f_range'])
     settings = case['settings']
     ops = case['ops']
     vs = []
@@ -130,6 +131,10 @@ def run_history(sh, case, driver='history'):
         if kind == 'fit':
             sig = sigs[op[1]]
             same_object = len(op) < 3 or op[2] != 'copy'
+            if len(op) >= 4 and op[3] == 'other_band':
+                f_range = tuple(case['f_range2'])
+            else:
+                f_range = tuple(case['f_range'])
             _, eo = outcome(lambda: obj.fit(sig if same_object else np.array(sig, copy=True), fs, f_range))
             sh.note('fit:same_array_object' if same_object else 'fit:copy')
             fresh = Bycycle(**sh_.ctor_kwargs())
@@ -271,7 +276,12 @@ def gen_settings(rng, lo, method=None):
 def gen_op(rng, method, nsigs):
     r = rng.random()
     if r < 0.34:
-        return ('fit', int(rng.integers(0, nsigs))) if rng.random() < 0.8 else ('fit', int(rng.integers(0, nsigs)), 'copy')
+        q = rng.random()
+        if q < 0.6:
+            return ('fit', int(rng.integers(0, nsigs)))
+        if q < 0.8:
+            return ('fit', int(rng.integers(0, nsigs)), 'same', 'other_band')       # same object, another frequency band
+        return ('fit', int(rng.integers(0, nsigs)), 'copy')
     if r < 0.38:
         return ('edit_sig', int(rng.integers(0, nsigs)), str(rng.choice(['negate', 'roll'])))
     if r < 0.50:
@@ -365,7 +375,10 @@ def run(sh):
         ops = [gen_op(rng, method, nsig) for _ in range(int(rng.integers(2, 11)))]
         if not any(o[0] == 'fit' for o in ops):
             ops.append(('fit', 0))
-        case = {'sigs': make_sigs(rng, fs, lo, hi, nsig), 'fs': fs, 'f_range': (lo, hi), 'settings': settings, 'ops': ops}
+        lo2 = lo * float(rng.choice([0.5, 1.5, 2.0]))
+        hi2 = min(lo2 + (hi - lo), fs / 2 - 1)
+        case = {'sigs': make_sigs(rng, fs, lo, hi, nsig), 'fs': fs, 'f_range': (lo, hi), 'f_range2': (lo2, hi2), 'settings': settings,
+                'ops': ops}
         run_history(sh, case)
     # exhaustive small scope: every history of length <= L over a reduced alphabet, both methods
     L = 3 if sh.tier == 'quick' else 4
@@ -374,7 +387,7 @@ def run(sh):
     sigs = make_sigs(rs, fs, lo, hi, 2)
     tot = 0
     for method in ('cycles', 'amp'):
-        alpha = [('fit', 0), ('fit', 1), ('edit_thr', 'min_n_cycles', 5), ('recompute', 0.1), ('load', 1)]
+        alpha = [('fit', 0), ('fit', 1, 'same', 'other_band'), ('edit_thr', 'min_n_cycles', 5), ('recompute', 0.1), ('load', 1)]
         alpha += [('edit_thr', 'monotonicity_threshold', .5)] if method == 'cycles' else \
             [('edit_bk', 'min_n_cycles', 2), ('edit_thr', 'burst_fraction_threshold', .5)]
         settings = {'burst_method': method, 'thresholds': ({'amp_consistency': .4, 'monotonicity_threshold': .7, 'min_n_cycles': 3}
@@ -387,7 +400,7 @@ def run(sh):
                     continue
                 if not any(o[0] == 'fit' for o in ops):
                     continue
-                run_history(sh, {'sigs': sigs, 'fs': fs, 'f_range': (lo, hi), 'settings': settings, 'ops': [list(o) for o in ops]},
+                run_history(sh, {'sigs': sigs, 'fs': fs, 'f_range': (lo, hi), 'f_range2': (15., 25.), 'settings': settings, 'ops': [list(o) for o in ops]},
                             'exhaustive')
                 tot += 1
     sh.exhaustive['histories_len<=%d_reduced_alphabet_both_methods' % L] = {'histories': tot}
